@@ -308,6 +308,7 @@ class FakeSocket:
         self.inq = bytearray()
         self.in_fin = False
         self.rst = False
+        self.oob = False  # an unread urgent byte: the descriptor is in select's exceptional set / POLLPRI
         self.recv_total = 0
         # server -> client
         self.wire = bytearray()
@@ -501,6 +502,9 @@ class FakeSocket:
     def hup(self):
         return self.rst
 
+    def e_ready(self):
+        return self.oob and not self.listening
+
 
 class Pipe:
     def __init__(self):
@@ -526,6 +530,9 @@ class PipeEnd:
         return self.side == "w"
 
     def hup(self):
+        return False
+
+    def e_ready(self):
         return False
 
 
@@ -660,6 +667,8 @@ class SimPoll:
                 ev |= _select.POLLOUT
             if obj.hup():
                 ev |= _select.POLLHUP | _select.POLLERR
+            if flags & _select.POLLPRI and obj.e_ready():
+                ev |= _select.POLLPRI
             if ev:
                 out.append((fd, ev))
         return out
@@ -704,7 +713,8 @@ class SelectShim:
         fds = self._k.fds
         rr = [fd for fd in r if fd in fds and fds[fd].r_ready()]
         ww = [fd for fd in w if fd in fds and fds[fd].w_ready()]
-        return rr, ww, []
+        ee = [fd for fd in e if fd in fds and fds[fd].e_ready()]
+        return rr, ww, ee
 
     def select(self, r, w, e, timeout=None):
         k = self._k
@@ -716,8 +726,8 @@ class SelectShim:
                 k.log("select_ebadf", k.fdn(fd))
                 raise OSError(errno.EBADF, "Bad file descriptor")
         rr, ww, ee = self._scan(r, w, e)
-        if rr or ww:
-            sig = (tuple(k.fdn(x) for x in rr), tuple(k.fdn(x) for x in ww))
+        if rr or ww or ee:
+            sig = (tuple(k.fdn(x) for x in rr), tuple(k.fdn(x) for x in ww)) + ((tuple(k.fdn(x) for x in ee),) if ee else ())
             k.note_spin(sig)
             k.log("select", sig)
             return rr, ww, ee
